@@ -291,7 +291,7 @@ def run_pair_scoped(ex, it, a, b, sa, sb, tag):
     sb.scope = len(gam)
     before = list(gam)
     roots = (a, b)
-    info = lambda m: case_of(ex, m, roots, gam)
+    info = lambda m: case_of(ex, m, roots, before)
     try:
         r = it.call("unifier", "unify", [a, b, gam])
     except FuelExhausted:
@@ -300,6 +300,7 @@ def run_pair_scoped(ex, it, a, b, sa, sb, tag):
     ok = it.truth(r)
     if not (len(gam) == len(before) and all(x is y for x, y in zip(gam, before))):
         ex.check(False, tag + "U4.context-changed", info=info)
+        return
     if not ok:
         ex.count("fail")
         return
@@ -364,6 +365,9 @@ def confirm(H, label, case):
     if "result" not in r:
         return True, "compiled unify failed: %s" % (r,)
     shown = "unify(%s, %s) in a context of %d" % (T.show(case["a"], case["cells"]), T.show(case["b"], case["cells"]), len(case["defs_ctx"]))
+    if "U4." in label:
+        n = len(r.get("defs_ctx", []))
+        return (n != len(case["defs_ctx"])), "%s returns %s and leaves a context of %d entries" % (shown, r["result"], n)
     if label.startswith("R."):
         return (not r["result"]), "%s returns %s" % (shown, r["result"])
     if not r["result"]:
